@@ -73,6 +73,21 @@ Proof. exact FlushProofs.visible_trace_accepted. Qed.
 Theorem C20_tree_constants_in_range : 0 < c_rogger_queue_cap /\ 1000 <= c_rogger_wait_flush_timeout_ms.
 Proof. exact FlushProofs.tree_constants_in_range. Qed.
 
+(* ... and acceptance means the property: on an accepted trace every entry whose call returned before FlushLogger was
+   called is written before the acknowledged return; each entry is written at most once and only after its call began;
+   an entry whose call returned before another's call began is written first (hence per-goroutine order) *)
+Theorem C20_accepted_trace_complete : forall t1 t2 t3,
+  accepts (t1 ++ EFlushCall :: t2 ++ EFlushRet true :: t3) = true ->
+  forall e, In (ERet e) t1 -> In (EWrite e) (t1 ++ EFlushCall :: t2).
+Proof. exact FlushProofs.accepts_complete. Qed.
+Theorem C20_accepted_trace_once : forall a e b,
+  accepts (a ++ EWrite e :: b) = true -> ~ In (EWrite e) a /\ In (ECall e) a.
+Proof. exact FlushProofs.accepts_once. Qed.
+Theorem C20_accepted_trace_fifo : forall a1 e1 a2 e2 a3 b,
+  accepts (a1 ++ ERet e1 :: a2 ++ ECall e2 :: a3 ++ EWrite e2 :: b) = true ->
+  In (EWrite e1) (a1 ++ ERet e1 :: a2 ++ ECall e2 :: a3).
+Proof. exact FlushProofs.accepts_fifo. Qed.
+
 Print Assumptions C20_flush_complete.
 Print Assumptions C20_written_once.
 Print Assumptions C20_no_write_after_ack.
@@ -85,3 +100,6 @@ Print Assumptions C20_trace_validation_sound.
 Print Assumptions C20_tree_constants_in_range.
 Print Assumptions C20_logged_after_ack_never_written.
 Print Assumptions C20_flush_bounded.
+Print Assumptions C20_accepted_trace_complete.
+Print Assumptions C20_accepted_trace_once.
+Print Assumptions C20_accepted_trace_fifo.
